@@ -45,9 +45,31 @@ func coreItemsFiltered(tier string, mk func(a *Alpha, ns NamedSkel, focus []stri
 				name := fmt.Sprintf("%s/%s/{%s}", ns.Name, []string{"Parse", "Validate"}[mode], strings.Join(fs, ","))
 				items = append(items, Item{Name: name, Run: mk(a, ns, fs, elems), MaxDevs: -1})
 			}
+			// thorough: every triple of units, each over the reduced (Lite) alphabet
+			if tier == "thorough" && (maxK == 0 || maxK >= 3) {
+				for _, fs := range focusSets(units, 3) {
+					if len(fs) != 3 {
+						continue
+					}
+					a := &Alpha{Tier: tier, Mode: mode}
+					if alphaMod != nil {
+						alphaMod(a)
+					}
+					a.Lite = true
+					name := fmt.Sprintf("%s/%s/k3{%s}", ns.Name, []string{"Parse", "Validate"}[mode], strings.Join(fs, ","))
+					items = append(items, Item{Name: name, Run: mk(a, ns, fs, elems), MaxDevs: -1})
+				}
+			}
 		}
 	}
 	return items
+}
+
+func thoroughPrefix(tier string) string {
+	if tier == "thorough" {
+		return "every triple of units over the reduced alphabets (k=3), in addition to: "
+	}
+	return ""
 }
 
 func focusMap(fs []string) map[string]bool {
@@ -154,7 +176,7 @@ func init() {
 		Floor: 50,
 		Bound: func(tier string) string {
 			k, e := coreK(tier)
-			return fmt.Sprintf("k=%d focus units jointly over full alphabets, %d skeletons, %d elements per slice, every permutation of field visits, Parse and Validate", k, len(coreSkeletons(tier)), e)
+			return thoroughPrefix(tier) + fmt.Sprintf("k=%d focus units jointly over full alphabets, %d skeletons, %d elements per slice, every permutation of field visits, Parse and Validate", k, len(coreSkeletons(tier)), e)
 		},
 		Assumptions: []string{
 			"reference model written from the documentation/property statements (scen/core_spec.go); PostTransforms are absent in this space (failing PostTransforms belong to C12)",
